@@ -55,6 +55,9 @@ type referenceTracker struct {
 	// updates that are being processed
 	updates ModelUpdates
 
+	// updates generated so far from reference garbage collection
+	referenceUpdates ModelUpdates
+
 	// references are the updated references by the set of updates processed
 	references database.References
 
@@ -128,6 +131,7 @@ func (rt *referenceTracker) processReferencesLoop(updates ModelUpdates) (ModelUp
 		if err != nil {
 			return ModelUpdates{}, err
 		}
+		rt.referenceUpdates = referenceUpdates
 	}
 
 	return referenceUpdates, nil
@@ -548,8 +552,13 @@ func (rt *referenceTracker) getModel(table, uuid string) (model.Model, error) {
 		// model has been deleted
 		return nil, nil
 	}
-	// look for the model in the updates
-	model := rt.updates.GetModel(table, uuid)
+	// look for the model in the updates, those generated from reference
+	// garbage collection are the most recent
+	model := rt.referenceUpdates.GetModel(table, uuid)
+	if model != nil {
+		return model, nil
+	}
+	model = rt.updates.GetModel(table, uuid)
 	if model != nil {
 		return model, nil
 	}
@@ -567,8 +576,13 @@ func (rt *referenceTracker) getRow(table, uuid string) (*ovsdb.Row, error) {
 		// row has been deleted
 		return nil, nil
 	}
-	// look for the row in the updates
-	row := rt.updates.GetRow(table, uuid)
+	// look for the row in the updates, those generated from reference
+	// garbage collection are the most recent
+	row := rt.referenceUpdates.GetRow(table, uuid)
+	if row != nil {
+		return row, nil
+	}
+	row = rt.updates.GetRow(table, uuid)
 	if row != nil {
 		return row, nil
 	}
